@@ -685,7 +685,7 @@ impl RustGenerator<'_> {
 
     fn const_def(&mut self, const_def: &ast::ConstDef) {
         let krate = self.rust_options.krate_or_default();
-        let name = const_def.name().value();
+        let name = format!("r#{}", const_def.name().value());
 
         let (doc_comment, _) = self.doc_string(const_def.doc(), 0);
         code!(self, "{doc_comment}");
